@@ -251,9 +251,17 @@ func checkWholeDocument(p *core.Program, r *core.Report, rule, owner string, fn 
 				if callee == nil {
 					continue
 				}
-				if callee.Pkg != nil && core.InRepo(callee.Pkg.Pkg.Path()) && callee.Pkg == f.Pkg {
+				cpkg := callee.Pkg
+				if cpkg == nil && callee.Origin() != nil {
+					cpkg = callee.Origin().Pkg
+				}
+				fpkg := f.Pkg
+				if fpkg == nil && f.Origin() != nil {
+					fpkg = f.Origin().Pkg
+				}
+				if cpkg != nil && core.InRepo(cpkg.Pkg.Path()) && cpkg == fpkg {
 					// a plain in-repo helper of the action/handler (decode helpers); methods of library-like types are not followed
-					if f.Pkg == callee.Pkg || (f.Parent() != nil && callee.Pkg != nil) {
+					if true {
 						sites[callee] = append(sites[callee], c)
 						visit(callee)
 					}
